@@ -1,5 +1,6 @@
 """C04 -- names follow lexical block scope; closures capture their defining scope (spec/AnkoSem.tla)."""
-import vlib, corecheck, progs
+import os
+import vlib, corecheck, progs, frames
 
 LEVEL = "model_checking"
 RULE = ("All nestings to depth D of 14 block kinds (if/else/else-if, for-in, C-for, while, switch case/default, try/catch/finally, function, anonymous "
@@ -11,6 +12,7 @@ RULE = ("All nestings to depth D of 14 block kinds (if/else/else-if, for-in, C-f
 
 def run(ctx):
     binp = vlib.build_harness(ctx, "vmharness")
+    trace = os.path.join(ctx.work, "hook_trace.ndjson")
     ctx.assumptions += ["per-loop (not per-iteration) scope and the try/catch/finally shared scope follow the code where the statement leaves them open",
                         "a module reading an outer name through member syntax is left open"]
     fams = [("c04-nest", progs.fam_c04(2)), ("c04-closures", progs.fam_closures()),
@@ -18,7 +20,10 @@ def run(ctx):
     if not ctx.quick():
         fams.append(("c04-nest3", progs.fam_c04_deep(ctx.seed, 20000)))
     for tag, fam in fams:
-        corecheck.run_family(ctx, binp, fam, tag)
+        corecheck.run_family(ctx, binp, fam, tag, env=({"VERIF_TRACE": trace} if tag != "c04-nest" or not ctx.quick() else None))
+    # code -> spec: the hook traces of all those runs, and of the repository's own vm tests, against the frame machine
+    rt, _ = frames.repo_test_trace(ctx)
+    frames.check(ctx, "C04", [("families", trace), ("repo-vm-tests", rt)], 60000 if ctx.quick() else 600000)
     return vlib.finish(ctx, RULE, exhaustive=True)
 
 
